@@ -1,6 +1,7 @@
 (* P_C09.v -- C09: generic interfaces keep their type parameters, constraints and instances. *)
 From Moq Require Import Strs Strs_Proofs GoTypes TypeString VarName Registry Scope Gen P_C20 P_C02.
-From Moq.gen Require Import Tables.
+From Moq Require Import TmplAst.
+From Moq.gen Require Import Tables TemplateSrc.
 Local Open Scope string_scope.
 
 (* the mock has as many type parameters as the interface, in the same order, each under the
@@ -57,10 +58,19 @@ Theorem C09_explicit_constraint :
   explicit_constraint [] = None.
 Proof. repeat split. Qed.
 
-(* the declaration prints the parameter NAME through Exported, the receivers and the
-   bodies print it verbatim: a parameter called k is declared K (finding D1) *)
-Example C09_tparam_names_refuted : exported "k" = "K" /\ exported "elem" = "Elem" /\ exported "T" = "T".
-Proof. vm_compute. repeat split. Qed.
+(* declaration, receivers, signatures and records all print a type parameter's name
+   verbatim (since the repair of D1): nowhere in the template regenerated from /repo is
+   Exported applied to a type parameter's name *)
+Fixpoint exports_param_name (e : texpr) : bool :=
+  match e with
+  | ECall "Exported" [EField (EVar "$param") "Name"] => true
+  | _ => false
+  end.
+Definition no_exported_tparam (ns : list tnode) : bool :=
+  forallb (fun n => match n with NAction e => negb (exports_param_name e) | _ => true end) (flatten ns).
+
+Theorem C09_tparam_names_verbatim : no_exported_tparam moq_template = true.
+Proof. vm_compute. reflexivity. Qed.
 
 (* the self-check uses the constraint itself as type argument when there is no explicit one:
    for comparable this is not a valid type argument (finding D9) *)
